@@ -77,6 +77,16 @@ class PROP(Prop):
                             reply2 = cligen.frame(proto, 1, slave, mb.spec_rsp_pdu(("RHR", [rng.randrange(65536)])))
                             cs.append(Case(cligen.cli_line(proto, slave, [cligen.call_op(req, W=",".join(pre + [fault]), R="-"), cligen.call_op(req2, R=mb.rscript([reply2]))]),
                                            {"k": "wfault_next", "off": k, "frame": frame.hex(), "frame2": frame2.hex(), "proto": proto, "fault": fault}))
+                    # a request the encoder REFUSES (nothing may reach the transport, no part of a header either), then a further call whose
+                    # writes are accepted in small pieces: the transport receives exactly that second frame
+                    if g in (1, 3):
+                        big = rng.choice([("WMR", 7, [1] * rng.randrange(124, 140)), ("CU", 0x41, bytes(rng.randrange(253, 300))), ("RWMR", 1, 1, 2, [5] * rng.randrange(122, 130))])
+                        req2 = ("RHR", rng.randrange(65536), 1)
+                        frame2 = cligen.frame(proto, 1, slave, mb.spec_req_pdu(req2))
+                        reply2 = cligen.frame(proto, 1, slave, mb.spec_rsp_pdu(("RHR", [rng.randrange(65536)])))
+                        n2 = (len(frame2) + g - 1) // g
+                        cs.append(Case(cligen.cli_line(proto, slave, [cligen.call_op(big), cligen.call_op(req2, W=",".join(["a%d" % g, "p"] * n2), R=mb.rscript([reply2]))]),
+                                       {"k": "wfault_next", "off": 0, "frame": "", "frame2": frame2.hex(), "proto": proto, "fault": "refused by the encoder"}))
                     # fault-free piecewise writes with pending patterns
                     for pat in range(3):
                         n = (len(frame) + g - 1) // g
